@@ -13,6 +13,10 @@ NT = len(gs.TOKENS)
 # nearly-valid queries that need more than one edit of a corpus query to be reached: every
 # non-singular shape as a comparison operand / ValueType argument, and the invalid corpus of C15
 HANDWRITTEN = [
+    # integers just outside / at the I-JSON range, in index and in every slice slot
+    "$[9007199254740992]", "$[-9007199254740992]", "$[1:9007199254740992]", "$[-9007199254740992:]",
+    "$[::9007199254740992]", "$[9007199254740992:1]", "$[?@[1:9007199254740992]]", "$[?count(@[::-9007199254740992]) == 1]",
+    "$[9007199254740991]", "$[:9007199254740991:9007199254740991]", "$[0,\n 1:9007199254740992]",
     "$[?@['a','b'] == 1]", "$[?@[0,1] == 1]", "$[?1 != $.x['a',0]]", "$[?@[0:1] == 1]", "$[?@[*] == 1]", "$[?@..a == 1]",
     "$[?@[?@.a] == 1]", "$[?@.* == @.*]", "$[?$..a < 1]", "$[?@['a', 'b'] == @['a', 'b']]", "$[?@.a[0,0] >= 0]",
     "$[?length(@['a','b']) == 1]", "$[?match(@[0,1], 'a')]", "$[?value(@.a) == @['a','a']]", "$[?@[1:2].a == 1]",
